@@ -142,10 +142,12 @@ class Driver:
                     return ['unreg', c]
             return None
         if k == 'tick':
-            for d in range(n):
-                r = (op[1] + d) % n
-                if self.pool[r].parent is self.pool[r]:
-                    return ['tick', r, max(1, min(3, op[2]))]
+            # any current root; roots that have something queued are preferred so that histories make progress
+            for busy in (True, False):
+                for d in range(n):
+                    r = (op[1] + d) % n
+                    if self.pool[r].parent is self.pool[r] and (len(self.pool[r]) > 0 or not busy):
+                        return ['tick', r, max(1, min(3, op[2]))]
             return None
         if k == 'fire':
             return ['fire', op[1] % n]
@@ -252,12 +254,14 @@ class C07(Prop):
     id = 'C07'
     props_file = 'Props/C07.v'
     imports = ['Model.KTree', 'Model.KTreeObs']
-    quick_n = 500
-    thorough_n = 6000
+    quick_n = 240
+    thorough_n = 3000
     rule = ('histories of 4..40 ops over a pool of 2..6 real BaseComponent objects: register(c, p) with c detached, not '
             'pending and p outside c\'s subtree, unregister of attached components (also already pending ones, nested '
             'subtrees, several before any tick), fire on any component, 1..3 ticks of any current root, flush() on any '
-            'component, then ticks of all busy roots until every queue is empty.  non-trivial = the history completes '
+            'component, then ticks of all busy roots until every queue is empty; three styles: random, settled (ticks after '
+            'most register/unregister), reroot (a root that has dispatched becomes a subtree, changes, is unregistered and '
+            'probed again).  non-trivial = the history completes '
             'at least one unregistration or moves a component with queued events or a subtree')
     trusted_base = ['hand-written model Model/KTree.v tied to /repo by this correspondence run (structure of the object '
                     'graph after every op, receivers of every dispatched event)',
@@ -265,8 +269,9 @@ class C07(Prop):
     assumptions = ['single thread, no component is running; handlers only log (no handler registers, unregisters or fires)',
                    'order in which one flush dispatches its batch is taken from the implementation run as a schedule; '
                    'theorems hold for every permutation of the batch',
-                   '_updateRoot / getHandlers recursion is modelled with fuel = pool size; out-of-fuel is excluded by '
-                   'C07_fuel_enough under the forest invariant']
+                   '_updateRoot recursion is modelled with fuel = pool size + 1; theorems are stated for runs that end in Ok '
+                   '(no OutOfFuel, no Crash, valid schedules); that such runs are the ones the real code produces is '
+                   'checked by the correspondence on every case, not proved']
 
     def __init__(self):
         self._obs = {}
@@ -276,33 +281,67 @@ class C07(Prop):
     def generate(self, rng, n, tier):
         cases = []
         kinds = {}
+        styles = {}
+
+        def rnd_op(size):
+            r = rng.random()
+            if r < 0.22:
+                return [['reg', rng.randrange(size), rng.randrange(size)]]
+            if r < 0.44:
+                o = [['unreg', rng.randrange(size)]]
+                if rng.random() < 0.4:      # several before any tick (nested, or the same one again)
+                    o.append(['unreg', rng.randrange(size)])
+                return o
+            if r < 0.62:
+                return [['fire', rng.randrange(size)]]
+            if r < 0.92:
+                return [['tick', rng.randrange(size), rng.choice([1, 1, 2, 3])]]
+            return [['flush', rng.randrange(size)]]
+
         for i in range(n):
             size = rng.choice([2, 3, 3, 4, 4, 5, 6, 6])
             style = rng.random()
             L = rng.randint(4, 40 if tier == 'thorough' else 28)
             ops = []
-            # mostly start by building some tree
-            if style < 0.8:
-                for _ in range(rng.randint(1, size)):
-                    ops.append(['reg', rng.randrange(size), rng.randrange(size)])
-            while len(ops) < L:
-                r = rng.random()
-                if r < 0.22:
-                    ops.append(['reg', rng.randrange(size), rng.randrange(size)])
-                elif r < 0.44:
-                    ops.append(['unreg', rng.randrange(size)])
-                    if rng.random() < 0.4:      # several before any tick (nested, or the same one again)
-                        ops.append(['unreg', rng.randrange(size)])
-                elif r < 0.62:
-                    ops.append(['fire', rng.randrange(size)])
-                elif r < 0.92:
-                    ops.append(['tick', rng.randrange(size), rng.choice([1, 1, 2, 3])])
-                else:
-                    ops.append(['flush', rng.randrange(size)])
+            if style < 0.2 and size >= 3:
+                # a component that has been a root (and has dispatched) becomes a subtree, changes, and becomes
+                # a root again; then its old and new members are probed
+                st = 'reroot'
+                ids = list(range(size))
+                rng.shuffle(ids)
+                X, R, rest = ids[0], ids[1], ids[2:]
+                sub = [X]
+                for c in rest[:rng.randint(1, len(rest))]:
+                    ops.append(['reg', c, rng.choice(sub)])
+                    sub.append(c)
+                ops += [['fire', rng.choice(sub)], ['tick', X, rng.choice([1, 2])], ['reg', X, R]]
+                for _ in range(rng.randint(1, 3)):
+                    r = rng.random()
+                    if r < 0.5 and len(sub) > 1:
+                        ops += [['unreg', rng.choice(sub[1:])], ['tick', R, 3]]
+                    elif r < 0.8:
+                        ops += [['reg', rng.randrange(size), rng.choice(sub)], ['tick', R, rng.choice([1, 3])]]
+                    else:
+                        ops += rnd_op(size)
+                ops += [['unreg', X], ['tick', R, 3], ['fire', rng.choice(sub)], ['tick', X, 2]]
+                for _ in range(rng.randint(0, 6)):
+                    ops += rnd_op(size)
+            else:
+                st = 'settled' if style < 0.5 else 'random'
+                # mostly start by building some tree
+                if rng.random() < 0.8:
+                    for _ in range(rng.randint(1, size)):
+                        ops.append(['reg', rng.randrange(size), rng.randrange(size)])
+                while len(ops) < L:
+                    o = rnd_op(size)
+                    ops += o
+                    if st == 'settled' and o[0][0] in ('reg', 'unreg') and rng.random() < 0.6:
+                        ops.append(['tick', rng.randrange(size), 3])
+            styles[st] = styles.get(st, 0) + 1
             for o in ops:
                 kinds[o[0]] = kinds.get(o[0], 0) + 1
             cases.append({'n': size, 'ops': ops})
-        self.stats = {'op_kinds_generated': kinds}
+        self.stats = {'op_kinds_generated': kinds, 'history_styles': styles}
         return cases
 
     # ---- implementation driver
